@@ -192,6 +192,10 @@ pub fn istep(c: &(u16, u64, u16), obs: &mut Obs) -> CaseResult {
     Ok(())
 }
 
+/// Every collected iteration is cut off well above the longest model list (48 addresses/pages, 512
+/// indices), so a Step impl that stops advancing yields a wrong list instead of an endless one.
+const CAP: usize = 600;
+
 /// Range iteration (the Step impl is what makes `a..b` iterable): short ranges straddling the gap
 /// or touching the ends of the space.
 fn range_iter(c: &(u8, u64, u16, u16), obs: &mut Obs) -> CaseResult {
@@ -212,21 +216,22 @@ fn range_iter(c: &(u8, u64, u16, u16), obs: &mut Obs) -> CaseResult {
     let end_exists = start_pos + len * unit < SPACE;
     fn collect_va(a: u64, b: u64) -> (Vec<u64>, Vec<u64>, (usize, Option<usize>)) {
         let r = VirtAddr::new(a)..VirtAddr::new(b);
-        (r.clone().map(|v| v.as_u64()).collect(), r.clone().rev().map(|v| v.as_u64()).collect(), r.size_hint())
+        (r.clone().take(CAP).map(|v| v.as_u64()).collect(), r.clone().rev().take(CAP).map(|v| v.as_u64()).collect(), r.size_hint())
     }
     fn collect_pg<S: PageSize>(a: u64, b: u64) -> (Vec<u64>, Vec<u64>, (usize, Option<usize>)) {
         let r = Page::<S>::containing_address(VirtAddr::new(a))..Page::<S>::containing_address(VirtAddr::new(b));
         (
-            r.clone().map(|v| v.start_address().as_u64()).collect(),
-            r.clone().rev().map(|v| v.start_address().as_u64()).collect(),
+            r.clone().take(CAP).map(|v| v.start_address().as_u64()).collect(),
+            r.clone().rev().take(CAP).map(|v| v.start_address().as_u64()).collect(),
             r.size_hint(),
         )
     }
     fn collect_va_incl(a: u64, b: u64) -> Vec<u64> {
-        (VirtAddr::new(a)..=VirtAddr::new(b)).map(|v| v.as_u64()).collect()
+        (VirtAddr::new(a)..=VirtAddr::new(b)).take(CAP).map(|v| v.as_u64()).collect()
     }
     fn collect_pg_incl<S: PageSize>(a: u64, b: u64) -> Vec<u64> {
         (Page::<S>::containing_address(VirtAddr::new(a))..=Page::<S>::containing_address(VirtAddr::new(b)))
+            .take(CAP)
             .map(|v| v.start_address().as_u64())
             .collect()
     }
@@ -280,10 +285,10 @@ fn range_iter(c: &(u8, u64, u16, u16), obs: &mut Obs) -> CaseResult {
 fn idx_range(c: &(u16, u16), obs: &mut Obs) -> CaseResult {
     let (i, j) = (c.0 % 512, c.1 % 512);
     let r = PageTableIndex::new(i)..PageTableIndex::new(j);
-    let got: Vec<u16> = r.map(u16::from).collect();
+    let got: Vec<u16> = r.take(CAP).map(u16::from).collect();
     let want: Vec<u16> = (i..j).collect();
     ensure_eq!(got, want, "PageTableIndex range {}..{}", i, j);
-    let got: Vec<u16> = (PageTableIndex::new(i)..=PageTableIndex::new(j)).map(u16::from).collect();
+    let got: Vec<u16> = (PageTableIndex::new(i)..=PageTableIndex::new(j)).take(CAP).map(u16::from).collect();
     let want: Vec<u16> = (i..=j).collect();
     ensure_eq!(got, want, "PageTableIndex range {}..={}", i, j);
     if j == 511 || i == 0 {
